@@ -25,6 +25,9 @@ type variant struct {
 	JWT  bool // access-token type of every client (false: opaque)
 	Alg  jose.SignatureAlgorithm
 	Caps vstore.Caps
+	// NoPost: the provider is configured without client_secret_post (op.Config.AuthMethodPost = false); the code
+	// paths that look the client up a second time to enforce that are only reached in this configuration
+	NoPost bool
 }
 
 func (v variant) String() string {
@@ -32,7 +35,11 @@ func (v variant) String() string {
 	if v.JWT {
 		tt = "jwt"
 	}
-	return tt + "/" + string(v.Alg) + "/" + v.Caps.String()
+	s := tt + "/" + string(v.Alg) + "/" + v.Caps.String()
+	if v.NoPost {
+		s += "/no-post"
+	}
+	return s
 }
 
 // literal is the request under test as it was sent.
@@ -112,8 +119,12 @@ func (f *flowDef) capsOK(c vstore.Caps) bool {
 
 func newEnv(v variant, f *flowDef, router int, user, state, nonce string) (*env, error) {
 	key := keys.Get("op-sig-c10", v.Alg)
+	cfg := opdrv.DefaultConfig()
+	if v.NoPost {
+		cfg.AuthMethodPost = false
+	}
 	opt := opdrv.Options{
-		Config: opdrv.DefaultConfig(), Caps: v.Caps, SigningKey: key,
+		Config: cfg, Caps: v.Caps, SigningKey: key,
 		ProviderOpts: []op.Option{
 			op.WithAccessTokenVerifierOpts(op.WithSupportedAccessTokenSigningAlgorithms(string(v.Alg))),
 			op.WithIDTokenHintVerifierOpts(op.WithSupportedIDTokenHintSigningAlgorithms(string(v.Alg))),
